@@ -88,6 +88,7 @@ class RSocketBase(RSocket, RSocketInternal):
         self._is_closing = False
         self._connecting = True
         self._fragment_size_bytes = fragment_size_bytes
+        self._stream_control = None
 
         self._setup_internals()
 
@@ -102,6 +103,10 @@ class RSocketBase(RSocket, RSocketInternal):
         ...
 
     def _reset_internals(self):
+        if self._stream_control is not None:
+            # requests registered after the previous connection ended would otherwise be orphaned
+            self.stop_all_streams()
+
         self._frame_fragment_cache = FrameFragmentCache()
         self._send_queue = QueuePeekable()
         self._request_queue = asyncio.Queue(self._request_queue_size)
